@@ -97,8 +97,9 @@ fn l0_tree_put() {
     let t2 = t.put(n, gpolicy::policy, default);
     clause!(t2.free() == t.free() + n, "Tree::put adds exactly n");
     clause!(t2.reserved() == t.reserved(), "Tree::put keeps the reserved flag");
-    let reset = t2.free() == TREE_FRAMES && gpolicy::policy(t.class(), default, TREE_FRAMES) != Policy::Invalid;
-    clause!(t2.class().0 == if reset { default.0 } else { t.class().0 }, "Tree::put resets the class only for an entirely free tree");
+    let reset = t2.free() == TREE_FRAMES && !t.reserved() && gpolicy::policy(t.class(), default, TREE_FRAMES) != Policy::Invalid;
+    clause!(t2.class().0 == if reset { default.0 } else { t.class().0 }, "Tree::put resets the class only for an entirely free, unreserved tree");
+    clause!(!t.reserved() || t2.class().0 == t.class().0, "C09: a reserved tree keeps its class (it must stay compatible with the slot that holds it)");
 }
 
 /// `Tree::unreserve_add`. Precondition (what every call site must establish, see invariant I):
@@ -171,4 +172,194 @@ fn l0_tree_change() {
     } else if matches {
         clause!(op == Some(TreeOperation::Online) && t.free() != 0, "C15: a matching change is refused only when onlining a non-empty tree");
     }
+}
+
+// ---------------------------------------------------------------------------------------------
+// Helpers for the allocator-level obligations (private fields of `Trees`).
+// ---------------------------------------------------------------------------------------------
+pub(crate) fn make_trees<'a>(entries: &'a [Atom<Tree>], default: Class) -> Trees<'a> {
+    Trees { entries, default }
+}
+fn new_entry(bits: u32) -> Atom<Tree> {
+    Atom::new(Tree::from_bits(bits))
+}
+/// Run `f` on a tree array holding the given raw words (the entry type is private to this module).
+pub(crate) fn with_trees<const N: usize, R>(words: &[u32; N], default: Class, f: impl FnOnce(Trees<'_>) -> R) -> R {
+    let entries: [Atom<Tree>; N] = core::array::from_fn(|i| new_entry(words[i]));
+    f(Trees { entries: &entries, default })
+}
+pub(crate) fn tree_word(t: &Trees, i: usize) -> (usize, bool, u8) {
+    let w = t.entries[i].load();
+    (w.free(), w.reserved(), w.class().0)
+}
+pub(crate) fn word_wf(bits: u32) -> bool {
+    tree_wf(Tree::from_bits(bits))
+}
+
+// ---------------------------------------------------------------------------------------------
+// C16: Trees::search_best — after the scan, the remembered candidates are the N best-rated
+// non-perfect ones and are tried best first; perfect matches are tried during the scan.
+// ---------------------------------------------------------------------------------------------
+const SB_TREES: usize = 4;
+static mut VISITS: [usize; 16] = [0; 16];
+static mut NVISITS: usize = 0;
+static mut RATE: [u8; SB_TREES] = [0; SB_TREES]; // per-tree rating code chosen by the harness
+static mut RATE_M: [u8; SB_TREES] = [0; SB_TREES];
+
+fn rotate_right_model<T>(s: &mut [T], k: usize) {
+    kani::assert(k == 1, "rotate_right model: k == 1");
+    let len = s.len();
+    if len < 2 {
+        return;
+    }
+    unsafe {
+        let p = s.as_mut_ptr();
+        let last = core::ptr::read(p.add(len - 1));
+        let mut i = len - 1;
+        while i > 0 {
+            core::ptr::write(p.add(i), core::ptr::read(p.add(i - 1)));
+            i -= 1;
+        }
+        core::ptr::write(p, last);
+    }
+}
+fn rotate_left_model<T>(s: &mut [T], k: usize) {
+    kani::assert(k == 1, "rotate_left model: k == 1");
+    let len = s.len();
+    if len < 2 {
+        return;
+    }
+    unsafe {
+        let p = s.as_mut_ptr();
+        let first = core::ptr::read(p);
+        let mut i = 0;
+        while i + 1 < len {
+            core::ptr::write(p.add(i), core::ptr::read(p.add(i + 1)));
+            i += 1;
+        }
+        core::ptr::write(p.add(len - 1), first);
+    }
+}
+fn code_policy(code: u8, m: u8) -> Policy {
+    match code {
+        0 => Policy::Match(m),
+        1 => Policy::Demote,
+        2 => Policy::Steal,
+        _ => Policy::Invalid,
+    }
+}
+
+fn check_search_best<const N: usize>() {
+    // every tree carries a distinct free count, so that the rating closure can tell them apart
+    let words: [u32; SB_TREES] = kani::any();
+    let entries: [Atom<Tree>; SB_TREES] = core::array::from_fn(|i| new_entry(words[i]));
+    let mut i = 0;
+    while i < SB_TREES {
+        let t = Tree::from_bits(words[i]);
+        kani::assume(tree_wf(t) && t.free() == i + 1);
+        i += 1;
+    }
+    let rate_code: [u8; SB_TREES] = kani::any();
+    let rate_m: [u8; SB_TREES] = kani::any();
+    let mut i = 0;
+    while i < SB_TREES {
+        kani::assume(rate_code[i] < 4);
+        i += 1;
+    }
+    unsafe {
+        RATE = rate_code;
+        RATE_M = rate_m;
+        NVISITS = 0;
+    }
+    let trees = make_trees(&entries, Class(0));
+    let start: usize = kani::any();
+    kani::assume(start < SB_TREES);
+    let r: Result<()> = trees.search_best::<N, ()>(
+        TreeId(start),
+        0,
+        SB_TREES,
+        |_class, free| unsafe { code_policy(RATE[free - 1], RATE_M[free - 1]) },
+        |i| unsafe {
+            VISITS[NVISITS] = i.0;
+            NVISITS += 1;
+            Err(Error::Memory)
+        },
+    );
+    clause!(r.is_err(), "search_best reports Memory when every access fails");
+    let n = unsafe { NVISITS };
+    let visits = unsafe { VISITS };
+    let key = |t: usize| (code_policy(rate_code[t], rate_m[t]), false);
+    let perfect = |t: usize| rate_code[t] == 0 && rate_m[t] == u8::MAX;
+    let candidate = |t: usize| !Tree::from_bits(words[t]).reserved() && rate_code[t] != 3;
+    // split the visit sequence: perfect matches (during the scan) first, remembered ones after
+    let mut n_perfect = 0;
+    let mut t = 0;
+    while t < SB_TREES {
+        if candidate(t) && perfect(t) {
+            n_perfect += 1;
+        }
+        t += 1;
+    }
+    let mut n_fallback = 0;
+    let mut t = 0;
+    while t < SB_TREES {
+        if candidate(t) && !perfect(t) {
+            n_fallback += 1;
+        }
+        t += 1;
+    }
+    vcover!(n_fallback > N, "more fallback candidates than the buffer holds");
+    clause!(n == n_perfect + if n_fallback < N { n_fallback } else { N }, "C16: every perfect match and the N best fallback candidates are tried");
+    let mut j = 0;
+    while j < n {
+        let v = visits[j];
+        clause!(v < SB_TREES && candidate(v), "C16: only acceptable unreserved trees are tried");
+        if j < n_perfect {
+            clause!(perfect(v), "C16: perfect matches are tried during the scan");
+        } else {
+            clause!(!perfect(v), "C16: remembered candidates are the imperfect ones");
+            if j + 1 < n {
+                clause!(key(visits[j + 1]) <= key(v), "C16: remembered candidates are tried from best to worst");
+            }
+        }
+        let mut l = j + 1;
+        while l < n {
+            clause!(visits[l] != v, "C16: no tree is tried twice");
+            l += 1;
+        }
+        j += 1;
+    }
+    // universally quantified witness: an acceptable imperfect tree that was not tried is rated no
+    // better than every remembered one
+    let w: usize = kani::any();
+    kani::assume(w < SB_TREES && candidate(w) && !perfect(w));
+    let mut tried = false;
+    let mut j = 0;
+    while j < n {
+        if visits[j] == w {
+            tried = true;
+        }
+        j += 1;
+    }
+    if !tried {
+        let mut j = n_perfect;
+        while j < n {
+            clause!(key(w) <= key(visits[j]), "C16: the search keeps the highest-rated fallback candidates");
+            j += 1;
+        }
+    }
+}
+#[kani::proof]
+#[kani::unwind(8)]
+#[kani::stub(<[core::option::Option<crate::util::OrdBy<(Policy, bool), TreeId>>]>::rotate_right, rotate_right_model)]
+#[kani::stub(<[core::option::Option<crate::util::OrdBy<(Policy, bool), TreeId>>]>::rotate_left, rotate_left_model)]
+fn c16_search_best_n2() {
+    check_search_best::<2>();
+}
+#[kani::proof]
+#[kani::unwind(8)]
+#[kani::stub(<[core::option::Option<crate::util::OrdBy<(Policy, bool), TreeId>>]>::rotate_right, rotate_right_model)]
+#[kani::stub(<[core::option::Option<crate::util::OrdBy<(Policy, bool), TreeId>>]>::rotate_left, rotate_left_model)]
+fn c16_search_best_n3() {
+    check_search_best::<3>();
 }
